@@ -199,6 +199,13 @@ func (n *ServerNode) Stop() {
 	}
 	s := n.S
 	n.Up = false
+	n.W.S.mu.Lock()
+	for k := range n.W.S.hold {
+		if strings.HasPrefix(k, n.Name+":") {
+			delete(n.W.S.hold, k)
+		}
+	}
+	n.W.S.mu.Unlock()
 	t := n.W.Do("close@"+n.Name, func() {
 		s.Close()
 	})
